@@ -52,6 +52,8 @@ specs = {
         ("alg-matrix", None, S.falsify_accept,
          "all cells: configured alg x key x route; 23 header variants x signature classes incl. empty third segment", True),
         ("token-shapes", S.token_shapes, S.falsify_accept, "2, 3 and 4+ segment shapes with empty/non-empty parts under keyless and keyed checkers", True),
+        ("long-inputs", S.long_inputs_suite, S.falsify_long_inputs,
+         "alg header names of 1-20, 180-300, 400, 511-513, 767/768, 1000-1025, 4096, 20000 characters (bare and appended to none/HS256/RS256) on an unkeyed and a keyed checker: a name that merely starts with `none` is not `none`", False),
         ("builder-routes", S.builder_routes_suite, S.falsify_builder_routes,
          "every pool key x JWK alg attribute x private/public x explicit alg x route {setkey, callback sets key only, callback sets key and alg, setkey then callback removes key}; token decoded by an independent reader", True),
     ])'''),
@@ -74,6 +76,8 @@ specs = {
     F.run_suites(ctx, model_ok, deep, [
         ("token-bytes", S.token_bytes, S.falsify_accept,
          "all strings of length 1-4 (quick) / 1-5 (thorough) over {e . = A - 0x80}; 12x10x8 header/payload/signature part grid; random strings over a token alphabet and over all bytes; random edits of real tokens; 1k-64k inputs; x checkers {no key, oct, RSA, P-256, Ed25519}; independent well-formedness predicate as falsifier", False),
+        ("token-bytes-gnutls", lambda w, p, t, r: S.token_bytes(w, p, t, r, provider="gnutls"), S.falsify_accept,
+         "the same strings under the GnuTLS provider (its own length and framing checks run ahead of the library calls)", False),
     ])'''),
  "c09": dict(doc="C09 -- key-strength floor (verification side): theorems + boundary-exhaustive strength suite.",
    mods=["Jwt.Props.C09"], files=["Jwt/Props/C09.lean"], gen=3,
